@@ -63,7 +63,7 @@ def run_group(scratch, group, timeout=1800, only=None):
                 os.utime(os.path.join(root, fn), (now, now))
             except OSError:
                 pass
-    env = offline_env({"CARGO_TARGET_DIR": kani_leg.REPLAY_TARGET, "RUSTFLAGS": "--cfg verif_replay -A warnings"})
+    env = offline_env({"CARGO_TARGET_DIR": kani_leg.REPLAY_TARGET, "RUSTFLAGS": "--cfg verif_replay -A warnings -C overflow-checks=on"})
     cmd = ["cargo", "test", "--offline", "--release", "--lib", group.modname + "::", "--", "--nocapture", "--test-threads", "1"]
     if only:
         # cargo test takes one filter before `--`; further filters go after it
@@ -74,7 +74,14 @@ def run_group(scratch, group, timeout=1800, only=None):
     text = so + "\n" + se
     if rc == -9:
         raise Undecided("native group %s timed out" % group.name)
-    if "test result:" not in text:
+    aborted = None
+    if "test result:" not in text and re.search(r"signal: 6|SIGABRT|process abort signal|panic in a destructor|panicked while panicking", text):
+        # a panic inside a destructor (or while unwinding) aborts the whole test process: that IS a crash of the
+        # code under test in the scenario that was running (the last test announced without a verdict)
+        started = re.findall(r"^test (\S+) \.\.\. ?(ok|FAILED)?", text, re.M)
+        running = [n for n, v in started if not v]
+        aborted = running[-1].split("::")[-1] if running else None
+    if aborted is None and "test result:" not in text:
         raise Undecided("native group %s did not run (build error?):\n%s" % (group.name, "\n".join(text.splitlines()[-30:])))
     results = []
     for name, meta in group.checks.items():
@@ -82,6 +89,17 @@ def run_group(scratch, group, timeout=1800, only=None):
             continue
         ran = re.search(r"test \S*::%s \.\.\." % re.escape(name), text)
         failed = re.search(r"^    \S*::%s$" % re.escape(name), text, re.M) or re.search(r"\S*::%s \.\.\. FAILED" % re.escape(name), text)
+        if aborted is not None:
+            if name == aborted:
+                pm = re.findall(r"panicked at [^\n]*\n([^\n]*)", text)
+                results.append({"check": name, "group": group.name, "status": "FAILED", "clause": group.default_clause,
+                                "message": "the test process ABORTED (panic inside a destructor / while unwinding) during this scenario: " + (pm[-1] if pm else "abort"),
+                                "cases": 0, "nontrivial": 0, "meta": meta, "wall_s": wall})
+            elif re.search(r"test \S*::%s \.\.\. ok" % re.escape(name), text):
+                results.append({"check": name, "group": group.name, "status": "ok", "clause": None, "message": None,
+                                "cases": 0, "nontrivial": 0, "meta": meta, "wall_s": wall})
+            # scenarios that had not started yet are simply not reported
+            continue
         if not ran:
             # the test did not run at all (stale artifact, filter mismatch, renamed harness): a tool
             # problem, never a verdict about the code
